@@ -55,20 +55,15 @@ impl C17 {
         // The bank rejects an overdraft, so an offer above the holdings shows up as a failed transaction; here
         // (successful transaction) we additionally check the declared offer against the attribute.
         let swaps: Vec<&crate::chain::ExecRec> = tr.execs.iter().filter(|x| x.caller == DISPATCHER && x.callee == SWAP).collect();
-        let attr = |k: &str| e.attrs.iter().find(|a| a.key == k).map(|a| a.value.clone()).unwrap_or_default();
-        let offer_denom = attr("offer_coin_denom");
-        let offer_amount: u128 = attr("offer_coin_amount").parse().unwrap_or(0);
+        // the balancing swap is the SwapDenom whose offered coin is one of the two reward coins
+        let main: Vec<&crate::chain::ExecRec> = swaps.iter().filter(|x| x.funds.len() == 1 && (x.funds[0].denom == USEI || x.funds[0].denom == KUSD)).cloned().collect();
+        if main.len() > 1 {
+            out.violation(P, "offer_within_holdings", format!("{} balancing swaps in one SwapToRewardDenom", main.len()));
+        }
+        let (offer_denom, offer_amount) = main.first().map(|x| (x.funds[0].denom.clone(), x.funds[0].amount.u128())).unwrap_or((KUSD.to_string(), 0));
         let holding = if offer_denom == USEI { u0 } else { kt };
         if offer_amount > holding {
             out.violation(P, "offer_within_holdings", format!("offers {} {} but holds {} (incl. conversion proceeds)", offer_amount, offer_denom, holding));
-        }
-        let last_main: u128 = swaps
-            .iter()
-            .filter(|x| x.funds.len() == 1 && x.funds[0].denom == offer_denom && (x.funds[0].denom == USEI || x.funds[0].denom == KUSD))
-            .map(|x| x.funds[0].amount.u128())
-            .sum();
-        if last_main != offer_amount {
-            out.violation(P, "offer_within_holdings", format!("attribute says offer {} {} but swap messages carry {}", offer_amount, offer_denom, last_main));
         }
         if bb + bs == 0 {
             return;
